@@ -190,7 +190,7 @@ func c12(args []string) {
 				fail("run day-of-year zeit=%d date=%s loop-day-of-year=%d true=%d year-length=%d true=%d", zeit, t.Format("2006-01-02"), g.TAG.Index+1, t.YearDay(), g.JTAG, yearLen)
 			}
 		}
-		res := runProject(*work, splitArgs("project=ex1 WeatherFolder=historical soilId=075 fcode=109_120 plotNr=10001 Altitude=73 Latitude=52.6732 poligonID=29872 EndDate=03012001 resultfolder=R/c12"))
+		res := runProject(*work, splitArgs("project=ex1 WeatherFolder=historical soilId=075 fcode=109_120 plotNr=10001 Altitude=73 Latitude=52.6732 poligonID=29872 EndDate=03012001 resultfolder="+filepath.Join(*work, "R", "c12")))
 		hermes.VerifProbe = nil
 		if !res.Success {
 			fail("run crossing 2000 failed: %s", res.Err)
